@@ -712,6 +712,12 @@ theorem container_asc {d : SeriesData} (hw : d.WF) {c : List Row} (hc : c ∈ co
   · exact hw.1
   · obtain ⟨ch, hch, rfl⟩ := List.mem_map.mp hc'; exact (hw.2 ch hch).2
 
+/-- the rows of the plain select are sorted by time. -/
+theorem viewRows_asc {d : SeriesData} (hw : d.WF) {lo hi : Int} (hk : NoKeyTwiceIn lo hi d) :
+    StrictAsc (viewRows lo hi d) := by
+  rw [viewRows_eq]
+  exact (foldl_insertRow (acc := []) (inRange_rows_distinct hw hk) (by simp [StrictAsc]) (by simp)).1
+
 /-- the row-level answer is the record merge of the rows in range of all containers. -/
 theorem aggRows_eq_mergeOf {d : SeriesData} (hw : d.WF) {lo hi : Int} (hk : NoKeyTwiceIn lo hi d) :
     aggRows lo hi d = mergeOf d.ty (((containers d).map (fun c => c.filter (inRange lo hi))).flatten) := by
